@@ -302,6 +302,14 @@ def _mutable_defaults(ctx):
     from .c20 import r9_mutable_defaults
     r9_mutable_defaults(ctx, ("bionumpy.bnpdataclass.lazybnpdataclass", "bionumpy.io.npdataclassreader", "bionumpy.io.delimited_buffers", "bionumpy.io.file_buffers", "bionumpy.io.one_line_buffer", "bionumpy.io.bam"))   # tables must not share an overlay / cache through a default argument
 
+def _untouched_columns_as_file_text(ctx):
+    """A lazily read table that is written after one column was replaced takes every other column as text from the file buffer; the eager table formats all of
+    them.  The two agree only if that text is the column's own text (through the format's overridable text accessor, which FASTQ re-maps)."""
+    from .c03 import r6_streams_and_text_ranges
+    with ctx.only("untouched columns", "text accessor", "served by the text accessor"):
+        r6_streams_and_text_ranges(ctx)
+
+
 RULES = [
     ("C05-R1", r1_aligned_views),
     ("C05-R2", r2_invalidation),
@@ -313,4 +321,5 @@ RULES = [
     ("C05-T2", _small_edits),
     ("C05-R7", r7_late_bound_constants),
     ("C05-R8", _mutable_defaults),
+    ("C05-R9", _untouched_columns_as_file_text),
 ]
